@@ -344,6 +344,18 @@ elif what == "history":
         scf = SCF(h2(1.8), opt={"pccg": 4}, etol=1e-12, guess="pseudo")
     scf.run()
     energies("hist.reused_scf_object", scf)
+    # the potential of an object built once, or rebuilt several times from the same atoms (functional / parameters re-assigned): building it must not
+    # modify the atoms it is built from (all-electron potentials of a molecule with two atoms of one species)
+    for pot in ("coulomb", "lr", "gth"):
+        sc = SCF(Atoms(["H", "H", "O"], [[0.0, 0.0, 0.0], [0.0, 0.0, 1.4], [1.0, 0.5, 0.7]], ecut=4, a=7), pot=pot, opt={"pccg": 2}, etol=1e-12, guess="pseudo")
+        if args.get("prelude"):
+            sc.xc = "lda,pw"
+            sc.pot_params = {}
+            sc.xc = "lda,vwn"
+        bits(f"hist.rebuilt_potential.{pot}.Vloc", np.asarray(sc.Vloc))
+        bits(f"hist.rebuilt_potential.{pot}.Sf", np.asarray(sc.atoms.Sf))
+        sc.run()
+        energies(f"hist.rebuilt_potential.{pot}", sc)
     bits("hist.pseudo_uniform", pseudo_uniform((2, 7, 3), seed=1234))
     bits("hist.guess_pseudo", np.concatenate([np.asarray(w).ravel() for w in guess_pseudo(scf, seed=7)]))
     bits("hist.guess_random", np.concatenate([np.asarray(w).ravel() for w in guess_random(scf, seed=7)]))
@@ -450,6 +462,11 @@ elif what == "end2end":
     scf3 = SCF(lih(), opt={"sd": 2}, etol=1e-12, pot="coulomb_lr")
     scf3.run()
     energies("coulomb_lr", scf3)
+    # three chained minimisers in a non-alphabetical order: the order in which they run is the order of the dictionary the user wrote
+    scf5 = SCF(lih(), opt={"sd": 2, "pccg": 2, "lm": 2}, etol=1e-12, guess="pseudo")
+    scf5.run()
+    energies("three_chained_minimisers", scf5)
+    out["str:opt_order"] = ",".join(scf5._opt_log)
     # six k-points with different contributions: a reduction over the k-points whose order depended on threads / completion order would change bits
     at4 = lih(unrestricted=True)
     at4.kpts.kmesh = [3, 2, 1]
